@@ -14,6 +14,7 @@ import (
 type smsSent struct {
 	code, number string
 	consumed     bool
+	alt          *smsSent // previous record that may still be current (sending request hit a backend fault)
 }
 
 type monC02 struct {
@@ -50,6 +51,11 @@ func (c *monC02) After(m *Machine, s *Step) *Violation {
 	prevSMS := c.last[b]
 	if n := len(r.SMS); n > 0 {
 		c.last[b] = &smsSent{code: r.SMS[n-1].Code, number: r.SMS[n-1].Number}
+		if r.Fired != "" {
+			// a backend call of the sending request failed: the response may not have
+			// stored the new code in the session, so the previous one can still be current
+			c.last[b].alt = prevSMS
+		}
 	}
 	before, after := r.UIDBefore(), r.UID()
 	if after == "" || after == before {
@@ -93,9 +99,11 @@ func (c *monC02) After(m *Machine, s *Step) *Violation {
 			}
 			return violation("C02", "completed-with-foreign-code:sms:recovery:"+op.Src, "sms validate logged in %q with recovery code %q which is not one of its unused codes", after, s.Secret)
 		}
-		if prevSMS != nil && !prevSMS.consumed && prevSMS.code == s.Secret && prevSMS.number == pre.SMSPhone {
-			prevSMS.consumed = true
-			return nil
+		for p := prevSMS; p != nil; p = p.alt {
+			if !p.consumed && p.code == s.Secret && p.number == pre.SMSPhone {
+				p.consumed = true
+				return nil
+			}
 		}
 		got := "none"
 		if prevSMS != nil {
